@@ -68,20 +68,32 @@ def worker() -> G.Worker:
 
 
 _hangs: dict[str, int] = {}
+HANG_LOG: list = []
 
 
 def run(spec: dict) -> dict:
-    """one watchdogged real call (cached); after two hangs of the same generator / entry point the rest of
+    """one watchdogged real call (cached); after a hang of a generator / entry point the rest of
     its cases are not attempted any more (each hang costs the full timeout)"""
     k = json.dumps(spec, sort_keys=True)
     if k not in _cache:
         who = spec.get("op") or spec.get("gen")
-        if _hangs.get(who, 0) >= 2:
+        if _hangs.get(who, 0) >= 1:
             return {"ok": False, "err": "SkippedAfterHang", "msg": f"{who} hung twice before"}
         _cache[k] = worker().run(spec, TIMEOUT)
         if _cache[k].get("hang"):
             _hangs[who] = _hangs.get(who, 0) + 1
+            HANG_LOG.append((spec, _cache[k]))
     return _cache[k]
+
+
+def hang_violations(seen: set):
+    """every watchdog timeout observed so far (in any stage) is a finding with its arguments"""
+    for spec, res in HANG_LOG:
+        key = "hang-" + str(spec.get("op") or spec.get("gen"))
+        if key not in seen:
+            seen.add(key)
+            yield Violation(key, f"{spec.get('op') or spec.get('gen')} did not return within {res.get('timeout')} s",
+                            {"op": "hang", "spec": spec, "observed": "hang"})
 
 
 def gid(name: str) -> int:
@@ -460,7 +472,7 @@ def oracle(ctx: Ctx, deep: bool = False):
                         seen.add(key)
                         yield Violation(key, what, {"op": "generator", "spec": s, "observed": {k2: res.get(k2) for k2 in
                                                                                               ("ok", "shape", "dtype", "err", "msg", "hang")}})
-                if feas and not res.get("ok") and not res.get("hang"):
+                if feas and not res.get("ok") and not res.get("hang") and res.get("err") != "SkippedAfterHang":
                     documented = (name == "VariableDensityPoisson" and res.get("err") == "ValueError"
                                   and "Cannot generate mask" in res.get("msg", ""))
                     if not documented:
@@ -475,6 +487,8 @@ def oracle(ctx: Ctx, deep: bool = False):
         res = run({"op": "bisect_script", "n": 8, "acc": 4, "script": [], "threshold": thr})
         ctx.count(("bisect-threshold", thr), True, bucket="oracle/bisection-unreachable/" +
                   ("hang" if res.get("hang") else res.get("err", "returned")))
+        if res.get("err") == "SkippedAfterHang":
+            continue
         if res.get("hang") or res.get("ok") or res.get("err") != "ValueError":
             key = "hang-bisection-wrapper" if res.get("hang") else "bisection-wrapper-no-error"
             if key not in seen:
@@ -490,6 +504,8 @@ def oracle(ctx: Ctx, deep: bool = False):
                      "return_acs": False}
                 must_raise = len(shape) < 3 or (mode != "static" and len(shape) < 4) or (G.is_kt(name) and len(shape) not in (4, 5))
                 res = run(s)
+                if res.get("err") == "SkippedAfterHang":
+                    continue
                 ctx.count(("rank", name, mode, len(shape)), False, bucket="oracle/rank-" + ("reject" if must_raise else "accept"))
                 if must_raise and (res.get("ok") or res.get("err") != "ValueError"):
                     key = f"rank-check-{name}"
@@ -503,12 +519,15 @@ def oracle(ctx: Ctx, deep: bool = False):
                         if key not in seen:
                             seen.add(key)
                             yield Violation(key, what, {"op": "generator", "spec": s})
+    yield from hang_violations(seen)
     if _worker is not None:
         ctx.notes.append(f"watchdog worker: spawned {_worker.spawned}x, hangs {_worker.hangs}")
 
 
 def replay(rep: dict) -> bool:
     """Re-run a recorded failing case on the implementation; True when it still fails."""
+    if rep.get("op") == "hang":
+        return bool(worker().run(rep["spec"], TIMEOUT).get("hang"))
     if rep.get("op") == "bisect-threshold":
         res = worker().run({"op": "bisect_script", "n": 8, "acc": 4, "script": [], "threshold": rep["threshold"]}, TIMEOUT)
         return bool(res.get("hang") or res.get("ok") or res.get("err") != "ValueError")
